@@ -850,6 +850,18 @@ func (env *SpecEnv) call(x *SExpr) (sval, error) {
 			}
 			return sval{app(SInt, "g.src", env.f.asInt(i.t)), types.Typ[types.Rune]}, nil
 		}
+	case "lockstate":
+		// the ghost state of all mutexes (for "leaves every mutex as it found it")
+		e.famSort["Mutex.locked"] = arraySort(SInt, SBool)
+		return sval{e.family(env.cur, "Mutex.locked", arraySort(SInt, SBool)), nil}, nil
+	case "locked":
+		// ghost: the mutex is held by this thread of control
+		m, err := env.eval(args[0])
+		if err != nil {
+			return sval{}, err
+		}
+		e.famSort["Mutex.locked"] = arraySort(SInt, SBool)
+		return sval{sel(e.family(env.cur, "Mutex.locked", arraySort(SInt, SBool)), m.t, SBool), types.Typ[types.Bool]}, nil
 	case "rsrc", "rpos":
 		// ghost state of a strings.Reader: the string it reads and how far it is
 		r, err := env.eval(args[0])
